@@ -215,10 +215,15 @@ func genConcJobs(rng *Rng, cfg *configuration.Configuration) []concJob {
 	return jobs
 }
 
+var abortC17 bool
+
 func runC17(r *Run) {
 	cfg := configuration.New()
 	defer runtime.GOMAXPROCS(runtime.GOMAXPROCS(0))
 	r.each(func(idx int, rng *Rng) {
+		if abortC17 {
+			return // goroutines of a hung case are still alive: later cases would not be clean
+		}
 		jobs := genConcJobs(rng, cfg)
 		if len(jobs) == 0 {
 			return
@@ -274,13 +279,26 @@ func runC17(r *Run) {
 		close(start)
 		done := make(chan struct{})
 		go func() { wg.Wait(); close(done) }()
+		// a deadlock makes no progress; a loaded machine does: wait as long as results keep arriving
 		hung := false
-		select {
-		case <-done:
-		case <-time.After(60 * time.Second):
-			hung = true
+		lastCount := -1
+	waiting:
+		for {
+			select {
+			case <-done:
+				break waiting
+			case <-time.After(120 * time.Second):
+				if n := len(results); n == lastCount {
+					hung = true
+					break waiting
+				} else {
+					lastCount = n
+				}
+			}
 		}
-		close(results)
+		if !hung {
+			close(results) // the workers of a hung case may still send
+		}
 		descs := make([]string, len(jobs))
 		for i, j := range jobs {
 			descs[i] = j.desc
@@ -291,7 +309,8 @@ func runC17(r *Run) {
 		r.out.Count(fmt.Sprintf("goroutines:%d", workers))
 		r.out.Add("jobs-run", workers*len(jobs))
 		if hung {
-			r.out.Finding("C17", "hang", "goroutines using separate instances / shared sessions did not finish within 60 s", hist)
+			r.out.Finding("C17", "hang", "goroutines using separate instances / shared sessions stopped making progress (no job finished for 120 s)", hist)
+			abortC17 = true
 			return
 		}
 		for x := range results {
